@@ -397,6 +397,14 @@ def ob_shape():
         it.call(it.getattr(o, "generate_more_samples"), [4])
         h = it.call(it.getattr(o, "get_samples"), [])
         goals.append(Goal("samples have the new shape + (n,)", h.shape == (2, 3, 4)))
+        # every sequence of re-configurations of a RUNNING generator, back to "no shape" included: the next request has the configured shape
+        for new_shape, want_phase, want_out in ((None, (2, 1), (5,)), (3, (2, 3, 1), (3, 5)), (None, (2, 1), (5,)), ((1, 2), (2, 1, 2, 1), (1, 2, 5)),
+                                                (None, (2, 1), (5,)), (None, (2, 1), (5,))):
+            it.setattr(o, "shape", new_shape)
+            it.call(it.getattr(o, "generate_more_samples"), [5])
+            h = it.call(it.getattr(o, "get_samples"), [])
+            goals.append(Goal("shape = %r on the running generator: phases %r, samples %r" % (new_shape, want_phase, want_out),
+                              np.shape(o.fields["_phi_l"]) == want_phase and np.shape(o.fields["_psi_l"]) == want_phase and np.shape(h) == want_out))
         return goals
     return verify(body, check_side=False)
 
@@ -524,6 +532,24 @@ def ob_float():
                     if (not (np.abs(hh - rf).max() <= 2 * np.pi * Fd * Ts * float(kk[-1]) * 1e-9 * math.sqrt(L) + 1e-9)):
                         return {"copied generators disturb each other": float(np.abs(hh - rf).max()), "copied with": how.__name__,
                                 "which": "original" if gg is g1 else "copy"}
+        # re-configuring a running generator (int / tuple / back to None): every later request has the configured shape and the model values
+        gs = fg.JakesSampleGenerator(Fd, Ts, L, None, np.random.RandomState(case["seed"] + 7))
+        gs.generate_more_samples(4)
+        for new_shape in (2, None, (2, 2), None, None, 3):
+            gs.shape = new_shape
+            shn = () if new_shape is None else ((new_shape,) if isinstance(new_shape, int) else tuple(new_shape))
+            p0 = int(round(gs._current_time / Ts)) if Ts > 0 else 0
+            try:
+                gs.generate_more_samples(6)
+            except Exception as e:
+                return {"after shape = %r: generate raised" % (new_shape,): repr(e)[:200]}
+            hh = gs.get_samples()
+            if hh.shape != shn + (6,):
+                return {"after shape = %r: sample shape" % (new_shape,): list(hh.shape), "expected": list(shn + (6,))}
+            kk = p0 + np.arange(6)
+            rf = _model(gs._phi_l, gs._psi_l, Fd, L, (kk * Ts).reshape((1,) * (len(shn) + 1) + (6,)))
+            if (not (np.abs(hh - rf).max() <= 2 * np.pi * Fd * Ts * float(kk[-1]) * 1e-9 * math.sqrt(L) + 1e-9)):
+                return {"after shape = %r: samples differ from the model" % (new_shape,): float(np.abs(hh - rf).max())}
         # request and skip sizes are numbers: numpy integer scalars of any width (block lengths read from an integer array) count like ints
         ga = fg.JakesSampleGenerator(Fd, Ts, L, None, np.random.RandomState(case["seed"] + 9))
         gb = fg.JakesSampleGenerator(Fd, Ts, L, None, np.random.RandomState(case["seed"] + 9))
